@@ -50,6 +50,15 @@ def _family() -> dict[str, dict[str, Any]]:
     add("while_threshold_stops_after_k", lambda t, x: lax.while_loop(lambda s: s[1][0] < t, lambda s: (s[0] + 1, s[1] + 1.0), (jnp.int32(0), x)), [((), F32), ((3,), F32)], [[F32(t), np.zeros(3, F32)] for t in (-1.0, 0.0, 0.5, 1.0, 3.5, 12.0)])
     add("while_captured_array", lambda n, x: lax.while_loop(lambda s: s[0] < n, lambda s: (s[0] + 1, s[1] @ K + v3), (jnp.int32(0), x))[1], [((), I32), ((3,), F32)], [[I32(n), v3] for n in (0, 1, 3, 6)])
     add("while_multi_carry_ranks", lambda n, x, m: lax.while_loop(lambda s: s[0] < n, lambda s: (s[0] + 1, s[1] + s[2].sum(0), s[2] * 0.9, s[3] + s[1].sum()), (jnp.int32(0), x, m, jnp.float32(0.0)))[1:], [((), I32), ((3,), F32), ((2, 3), F32)], [[I32(n), v3, np.ones((2, 3), F32)] for n in (0, 1, 4)])
+    # cond_fun and body_fun each close over a *traced* value; the captures differ in shape / dtype
+    add("while_cond_captures_scalar_body_captures_matrix", lambda t, inc, x: lax.while_loop(lambda s: (jnp.sum(s[1]) < t) & (s[0] < 30), lambda s: (s[0] + 1, s[1] + inc), (jnp.int32(0), x))[1],
+        [((), F32), ((2, 3), F32), ((2, 3), F32)], [[F32(t), np.full((2, 3), 1.5, F32), np.zeros((2, 3), F32)] for t in (-1.0, 20.0, 37.5, 1e6)])
+    add("while_cond_captures_int_body_captures_float", lambda n, inc, x: lax.while_loop(lambda s: s[0] < n, lambda s: (s[0] + 1, s[1] * inc), (jnp.int32(0), x))[1],
+        [((), I32), ((3,), F32), ((3,), F32)], [[I32(n), np.array([1.5, 0.5, -1.0], F32), v3] for n in (0, 1, 4)])
+    add("while_two_cond_captures_two_body_captures", lambda n, t, a, b, x: lax.while_loop(lambda s: (s[0] < n) & (jnp.max(s[1]) < t), lambda s: (s[0] + 1, s[1] * a + b.sum(0)), (jnp.int32(0), x))[1],
+        [((), I32), ((), F32), ((3,), F32), ((2, 3), F32), ((3,), F32)], [[I32(n), F32(50.0), np.array([1.5, 0.5, -1.0], F32), np.ones((2, 3), F32), v3] for n in (0, 2, 5)])
+    add("fori_body_captures_matrix_and_scalar", lambda a, c, x: lax.fori_loop(0, 3, lambda i, s: (s[0] @ s[1] + s[2], s[1], s[2]), (x, a, c))[0], [((3, 3), F32), ((), F32), ((3,), F32)], [[K, F32(0.5), v3]])
+    add("scan_body_captures_two_shapes", lambda a, c, xs: lax.scan(lambda carry, r: (carry @ a + r * c, carry.sum()), jnp.zeros((3,), xs.dtype), xs), [((3, 3), F32), ((), F32), ((4, 3), F32)], [[K, F32(0.5), np.arange(12, dtype=F32).reshape(4, 3) / 10]])
     add("while_float_counter", lambda x: lax.while_loop(lambda s: s < 10.0, lambda s: s * 1.7 + 0.1, jnp.abs(x).sum() + 0.01), [((3,), F32)], [[np.array(a, F32)] for a in ([20, 0, 0], [5, 0, 0], [0.1, 0, 0], [0, 0, 0])])
     add("while_in_cond", lambda p, n, x: lax.cond(p, lambda v: lax.while_loop(lambda s: s[0] < n, lambda s: (s[0] + 1, s[1] * 1.2), (jnp.int32(0), v))[1], lambda v: v - 1, x), [((), np.bool_), ((), I32), ((3,), F32)], [[np.bool_(b), I32(n), v3] for b in (True, False) for n in (0, 3)])
     add("cond_in_while", lambda n, x: lax.while_loop(lambda s: s[0] < n, lambda s: (s[0] + 1, lax.cond(s[0] % 2 == 0, lambda v: v + 1.0, lambda v: v * 2.0, s[1])), (jnp.int32(0), x))[1], [((), I32), ((3,), F32)], [[I32(n), v3] for n in (0, 1, 2, 5)])
